@@ -308,10 +308,6 @@ fn sentinel() -> Value {
 
 /// "absent" according to the implementation's own `var` (sentinel default trick).
 fn var_says_absent(ctx: &mut Ctx, data: &Value, key: &Value) -> Option<bool> {
-    let rule = json!({"var": [{"var": "k"}, {"var": "s"}]});
-    // the key and the sentinel travel through a wrapper so that operation-shaped keys stay inert;
-    // the lookup itself must see the original data, so do it directly instead:
-    let _ = rule;
     let direct = json!({"var": [key, sentinel()]});
     if refsem::as_op(key).is_some() || key.is_array() {
         return None;
